@@ -183,6 +183,15 @@ def check_case(acc, case):
                 o = L.cplx.numpy(call(U_.rotate_psi, cst, basis, space, psi=c2t(psi), **kw))
                 if not cmp("rotate_psi", "explicit", o, exp, name):
                     break
+                if name == "generic0":
+                    bigp = torch.zeros(2, 2 * D, dtype=torch.double)
+                    bigp[:, ::2] = c2t(psi)
+                    tt = bigp[:, ::2]
+                    keep = tt.clone()
+                    cmp("rotate_psi", "explicit-layout:strided-view", L.cplx.numpy(call(U_.rotate_psi, cst, basis, space, psi=tt, **kw)), exp, name)
+                    cmp("rotate_psi_inner_prod", "explicit-layout:strided-view", L.cplx.numpy(call(U_.rotate_psi_inner_prod, cst, basis, space, psi=tt, **kw)), exp, name)
+                    if not torch.equal(tt, keep):
+                        bad("rotate_psi", "explicit-input-modified:strided-view", tt.numpy(), keep.numpy(), name)
                 use = bl if name.startswith("generic") else bl[:1]
                 stop = False
                 for bn, rows in use:
@@ -218,6 +227,21 @@ def check_case(acc, case):
                 o = L.cplx.numpy(call(U_.rotate_rho, mst, basis, space, rho=c2t(rho), **kw))
                 if not cmp("rotate_rho", "explicit", o, exp, name):
                     break
+                if name in ("psd0", "herm0"):
+                    # the same matrix in other memory layouts (column-major as from a Fortran-ordered array or a
+                    # transposed view; every second entry of a larger work array): same values, same result, and
+                    # the caller's tensor is left as it was
+                    t0 = c2t(rho)
+                    big = torch.zeros(2, 2 * D, 2 * D, dtype=torch.double)
+                    big[:, ::2, ::2] = t0
+                    for lname, tt in (("column-major", t0.transpose(1, 2).contiguous().transpose(1, 2)), ("strided-view", big[:, ::2, ::2])):
+                        keep = tt.clone()
+                        o = L.cplx.numpy(call(U_.rotate_rho, mst, basis, space, rho=tt, **kw))
+                        cmp("rotate_rho", "explicit-layout:" + lname, o, exp, name)
+                        o = call(U_.rotate_rho_probs, mst, basis, space, rho=tt, **kw).numpy()
+                        cmp("rotate_rho_probs", "explicit-layout:" + lname, o, np.real(np.diag(exp)), name)
+                        if not torch.equal(tt, keep):
+                            bad("rotate_rho", "explicit-input-modified:" + lname, tt.numpy(), keep.numpy(), name)
                 use = bl if name in ("psd0", "herm0") else bl[:1]
                 stop = False
                 for bn, rows in use:
